@@ -506,9 +506,21 @@ func runProgram(p progIn) (res progOut) {
 	}
 	if p.Opts != nil && p.Opts.Resumed {
 		// L (no context) resumes R (the only state with the context) until the body has finished
+		if p.Snap {
+			res.Snaps = append(res.Snaps, snapRecord(L, -1, "go-before"))
+		}
 		st, rerr, vals := L.Resume(R, fn)
+		if p.Snap { // the resumer after a resume that ended in a yield (or at once): nothing of the transfer may stay on its stack
+			res.Snaps = append(res.Snaps, snapRecord(L, -1, "go-after"))
+		}
+		nyield := 0
 		for rerr == nil && st == lua.ResumeYield {
-			st, rerr, vals = L.Resume(R, fn)
+			nyield++
+			res.Emits = append(res.Emits, tk.toks(append([]lua.LValue{lua.LString("yielded")}, vals...)))
+			st, rerr, vals = L.Resume(R, fn, lua.LNumber(100+nyield), lua.LNumber(200+nyield))
+			if p.Snap && nyield < 40 {
+				res.Snaps = append(res.Snaps, snapRecord(L, 7, "lua"))
+			}
 		}
 		if rerr == nil {
 			res.Outcome = []interface{}{"ok", tk.toks(vals)}
